@@ -15,8 +15,8 @@ import traceback
 
 from . import VERIF_ROOT
 
-EVIDENCE_DIR = os.path.join(VERIF_ROOT, "evidence")
-REPLAY_DIR = os.path.join(VERIF_ROOT, "replays")
+EVIDENCE_DIR = os.environ.get("VERIF_EVIDENCE_DIR") or os.path.join(VERIF_ROOT, "evidence")
+REPLAY_DIR = os.environ.get("VERIF_REPLAY_DIR") or os.path.join(VERIF_ROOT, "replays")
 KNOWN_FILE = os.path.join(VERIF_ROOT, "KNOWN_FINDINGS.txt")
 
 GLOBAL_ASSUMPTIONS = [
